@@ -314,7 +314,16 @@ func Main(p *Property) {
 			}
 			res := &PartResult{Name: it.name}
 			if err != nil {
-				res.Error = fmt.Sprintf("worker failed: %v; stderr: %s", err, tail(stderr.String(), 2000))
+				if fr := crashFrame(stderr.String()); fr != "" {
+					// the worker process died inside the code under test (an uncontrolled goroutine panicked, or a runtime
+					// fatal error such as concurrent map access): that is a result, not an infrastructure problem
+					raw, _ := json.Marshal(map[string]any{"stderr": tail(stderr.String(), 6000)})
+					res.Engine = "crash"
+					res.Violations = append(res.Violations, &Violation{Part: it.name, Engine: "crash", Signature: it.name + "|crash|" + fr,
+						Message: "the worker process crashed inside hive.go:\n" + head(stderr.String(), 1500), Replay: raw})
+				} else {
+					res.Error = fmt.Sprintf("worker failed: %v; stderr: %s", err, tail(stderr.String(), 2000))
+				}
 			} else {
 				lines := strings.Split(strings.TrimSpace(string(out)), "\n")
 				if e := json.Unmarshal([]byte(lines[len(lines)-1]), res); e != nil {
@@ -326,6 +335,31 @@ func Main(p *Property) {
 	}
 	wg.Wait()
 	os.Exit(report(p, *tier, seed, results, time.Since(t0).Seconds()))
+}
+
+// crashFrame returns the first hive.go function of a Go crash dump ("" if stderr is not one).
+func crashFrame(stderr string) string {
+	if !strings.Contains(stderr, "panic: ") && !strings.Contains(stderr, "fatal error: ") {
+		return ""
+	}
+	for _, l := range strings.Split(stderr, "\n") {
+		l = strings.TrimSpace(l)
+		if strings.HasPrefix(l, "github.com/iotaledger/hive.go/") && strings.Contains(l, "(") {
+			f := strings.TrimPrefix(l, "github.com/iotaledger/hive.go/")
+			if i := strings.LastIndex(f, "("); i > 0 {
+				f = f[:i]
+			}
+			return f
+		}
+	}
+	return ""
+}
+
+func head(s string, n int) string {
+	if len(s) > n {
+		return s[:n] + "..."
+	}
+	return s
 }
 
 func tail(s string, n int) string {
